@@ -76,6 +76,8 @@ static void wd_arm(void)
 }
 /* --------------------------------------------------------------- system */
 typedef struct { uint8_t live; int8_t id; uint8_t beh; uint8_t gen; uint32_t due; uint32_t period; } MAct;
+/* delays of 2^31 ticks and more: they never expire in a run, but every later timer has to be linked in front of them */
+static const uint32_t HUGE_D[] = { 0x7FFFFFFFu, 0x80000000u, 0x80000001u, 0x90000000u, 0xF0000000u };
 static CO_NODE Node;              /* only Tmr / If / Error are used; Tmr is part of every snapshot */
 typedef struct {
     CO_TMR tmr;                   /* image of Node.Tmr */
@@ -353,7 +355,8 @@ static void c07rand(unsigned long nseq, int nops)
         for (int i = 0; i < nops && !Failed; i++) {
             uint32_t x = rnd() % 100;
             OP o;
-            if (x < 30) o = (OP){ 0, rnd() % (maxd + 1), (rnd() % 3 == 0) ? rnd() % (maxd + 1) : 0, (int)(rnd() % 4 == 0 ? 1 + rnd() % 2 : 0), 0 };
+            if (x < 2) o = (OP){ 0, HUGE_D[rnd() % 5], (rnd() % 2) ? HUGE_D[rnd() % 5] : 0, 0, 0 };
+            else if (x < 30) o = (OP){ 0, rnd() % (maxd + 1), (rnd() % 3 == 0) ? rnd() % (maxd + 1) : 0, (int)(rnd() % 4 == 0 ? 1 + rnd() % 2 : 0), 0 };
             else if (x < 45) o = (OP){ 1, 0, 0, 0, (int)(rnd() % (uint32_t)(pool + 2)) - 1 };
             else o = (OP){ 2, 0, 0, 0, 0 };
             if (TrN > 300) { TrN = 0; tr(T_HDR2, pool, 0, 0, 0); tr(T_DOTS, 0, 0, 0, 0); }
@@ -458,7 +461,8 @@ static void gen_seq(OP *seq, int n, int pool)
 {
     for (int i = 0; i < n; i++) {
         uint32_t x = rnd() % 100;
-        if (x < 34) seq[i] = (OP){ 0, rnd() % 4, (rnd() % 3 == 0) ? 1 + rnd() % 3 : 0, (int)(rnd() % 5 == 0 ? 1 + rnd() % 2 : 0), 0 };
+        if (x < 3) seq[i] = (OP){ 0, HUGE_D[rnd() % 5], (rnd() % 2) ? HUGE_D[rnd() % 5] : 0, 0, 0 };
+        else if (x < 34) seq[i] = (OP){ 0, rnd() % 4, (rnd() % 3 == 0) ? 1 + rnd() % 3 : 0, (int)(rnd() % 5 == 0 ? 1 + rnd() % 2 : 0), 0 };
         else if (x < 52) seq[i] = (OP){ 1, 0, 0, 0, (int)(rnd() % (uint32_t)(pool + 1)) };
         else if (x < 70) seq[i] = (OP){ 2, 0, 0, 0, 0 };
         else if (x < 86) seq[i] = (OP){ 3, 0, 0, 0, 0 };          /* service only: processing deferred */
